@@ -88,6 +88,83 @@ theorem tab_forEnum_local {α β : Type} (body : Attr α → Nat → β → Attr
     have hj : j < l.length := by simpa [tab] using h1
     simp [hj]
 
+theorem forEnum_local_get {α β : Type} (body : Attr α → Nat → β → Attr α) (h : IsLocalE body) (a : Attr α) (l : List β)
+    (j : Nat) (hj : j < l.length) : forEnum l a body j = body (fun _ => a j) j l[j] j := by
+  rw [forEnum, forEnumFrom_local_at body h]; simp [hj]
+
+theorem forEnum_local_out {α β : Type} (body : Attr α → Nat → β → Attr α) (h : IsLocalE body) (a : Attr α) (l : List β)
+    (j : Nat) (hj : l.length ≤ j) : forEnum l a body j = a j := by
+  rw [forEnum, forEnumFrom_local_at body h]; simp [hj]
+
+/-- a loop on a pair of containers whose body treats them independently is the pair of the two loops -/
+theorem forEnumFrom_pair {α β γ : Type} (b1 : Attr α → Nat → γ → Attr α) (b2 : Attr β → Nat → γ → Attr β) :
+    ∀ (l : List γ) (k : Nat) (a : Attr α) (b : Attr β),
+      forEnumFrom k l (a, b) (fun s c v => (b1 s.1 c v, b2 s.2 c v)) = (forEnumFrom k l a b1, forEnumFrom k l b b2) := by
+  intro l
+  induction l with
+  | nil => intro k a b; rfl
+  | cons x xs ih => intro k a b; simp only [forEnumFrom]; exact ih _ _ _
+
+/-! ### loops that write at a running counter (`a[c] = g(i); c += 1`) -/
+
+/-- `for i in range(n): a[c] = g(i); c += 1` fills the block `c .. c+n-1` -/
+theorem forRange_counter {α : Type} (g : Nat → α) (n : Nat) (a : Attr α) (c : Nat) :
+    forRange n (a, c) (fun s i => (wr s.1 s.2 (g i), s.2 + 1))
+      = ((fun j => if c ≤ j ∧ j < c + n then g (j - c) else a j), c + n) := by
+  induction n with
+  | zero =>
+    simp only [forRange_zero, Nat.add_zero, Prod.mk.injEq, and_true]
+    funext j
+    have : ¬ (c ≤ j ∧ j < c) := by omega
+    simp [this]
+  | succ n ih =>
+    rw [forRange_succ, ih]
+    simp only [Prod.mk.injEq]
+    refine ⟨?_, by omega⟩
+    funext j
+    simp only [wr]
+    by_cases h1 : j = c + n
+    · subst h1; simp
+    · by_cases h2 : c ≤ j ∧ j < c + n
+      · have : c ≤ j ∧ j < c + (n + 1) := ⟨h2.1, by omega⟩
+        simp [h1, h2, this]
+      · have : ¬ (c ≤ j ∧ j < c + (n + 1)) := by omega
+        simp [h1, h2, this]
+
+/-- the outer loop over the elements: the blocks are laid out one after the other -/
+theorem forEach_counter {α β : Type} (G : β → Nat → α) (len : β → Nat) : ∀ (fs : List β) (a : Attr α) (c : Nat),
+    forEach fs (a, c) (fun s f => forRange (len f) (s.1, s.2) (fun s i => (wr s.1 s.2 (G f i), s.2 + 1)))
+      = ((fun j => if c ≤ j then ((fs.flatMap (fun f => (List.range (len f)).map (G f)))[j - c]?).getD (a j) else a j),
+         c + (fs.flatMap (fun f => (List.range (len f)).map (G f))).length) := by
+  intro fs
+  induction fs with
+  | nil => intro a c; simp [forEach]
+  | cons f fs ih =>
+    intro a c
+    simp only [forEach, List.foldl_cons] at ih ⊢
+    rw [forRange_counter, ih]
+    simp only [Prod.mk.injEq, List.flatMap_cons, List.length_append, List.length_map, List.length_range]
+    refine ⟨?_, by omega⟩
+    funext j
+    by_cases h1 : c ≤ j
+    · by_cases h2 : j < c + len f
+      · have h3 : ¬ c + len f ≤ j := by omega
+        have h4 : j - c < ((List.range (len f)).map (G f)).length := by simp; omega
+        simp only [h3, if_false, h1, h2, and_self, if_true]
+        rw [List.getElem?_append_left h4]
+        simp [h4]
+        have : j - c < len f := by omega
+        simp [this]
+      · have h3 : c + len f ≤ j := by omega
+        have h4 : ((List.range (len f)).map (G f)).length ≤ j - c := by simp; omega
+        simp only [h3, if_true, h1, h2, and_false, if_false]
+        rw [List.getElem?_append_right h4]
+        simp only [List.length_map, List.length_range]
+        have : j - (c + len f) = j - c - len f := by omega
+        rw [this]
+    · have h3 : ¬ c + len f ≤ j := by omega
+      simp [h1, h3]
+
 /-- an inner loop that keeps updating ONE entry is one update of that entry by the folded function -/
 theorem forRange_upd_same {α : Type} (n : Nat) (a : Attr α) (t : Nat) (f : Nat → α → α) :
     forRange n a (fun a i => upd a t (f i)) = upd a t (fun v => forRange n v (fun v i => f i v)) := by
